@@ -20,7 +20,8 @@ def scenarios(tier):
     mon = ("c03",)
     out = [
         Scenario("c03-abs-mm", World, dict(prop="C03", monitors=mon, regions=["R"], emax=1),
-                 MOVES + [("RETRACT",), ("RECOVER",), ("ESET0",), ("AT", "ExcludeRegion", "disable")],
+                 [m for m in MOVES if not q or m not in (("TRAVELZ", "I2", 1), ("TRAVEL", "O1"))]
+                 + [("RETRACT",), ("RECOVER",), ("AT", "ExcludeRegion", "disable")] + ([] if q else [("ESET0",)]),
                  max_states=100000 if q else 1000000),
         Scenario("c03-rel-mm", World, dict(prop="C03", monitors=mon, regions=["R"], emax=1, guard=no_relative_disable),
                  MOVES + [("REL",), ("ABS",), ("AT", "ExcludeRegion", "disable")],
